@@ -34,7 +34,7 @@
    (poll)    the send descriptor is always writable.
 -/
 import NngModel.Proto.Base
-import NngModel.Generated.Consts
+import NngModel.Generated.C05
 namespace Nng.PubSubSpec
 open Nng Nng.Proto
 
